@@ -289,7 +289,72 @@ Proof.
     apply peq_map_first. intros b x Hx. simpl app. apply color_body_peq; auto.
 Qed.
 
-Lemma fixed_colour o m : o_colour o = true -> peq (print_fixedstruct o m) (decorate o m).
+Lemma fixed_colour o m : o_colour o = true -> m_kind m = KFixed -> peq (print_fixedstruct o m) (decorate o m).
 Proof.
-  intro Hc. unfold print_fixedstruct, decorate, decorate_colour, has_prefix, prefix. rewrite Hc.
-Abort.
+  intros Hc Hk. unfold print_fixedstruct, decorate, decorate_colour, has_prefix, prefix. rewrite Hc, Hk.
+  destruct (o_file o), (o_date o); simpl orb; cbv iota.
+  - unfold print_fixedstruct_prependfile_prependdate_color.
+    apply peq_app; [apply peq_by_norm; reflexivity | apply peq_refl].
+  - unfold print_fixedstruct_prependfile_color.
+    apply peq_app; [apply peq_by_norm; simpl; rewrite app_nil_r; reflexivity | apply peq_refl].
+  - unfold print_fixedstruct_prependdate_color.
+    apply peq_app; [apply peq_by_norm; reflexivity | apply peq_refl].
+  - apply peq_refl.
+Qed.
+
+Lemma evtx_colour o m : o_colour o = true -> m_kind m = KEvtx ->
+  nl_split [] (m_data m) = flat_lines m -> peq (print_evtx o m) (decorate o m).
+Proof.
+  intros Hc Hk Hwf. unfold print_evtx, decorate, decorate_colour, has_prefix, prefix. rewrite Hc, Hk.
+  destruct (o_file o), (o_date o); simpl orb; cbv iota;
+    try (unfold print_evtx_prepend_color; rewrite Hwf; apply peq_app; [|apply peq_refl];
+         apply peq_loop_at; intros a x; rewrite !app_assoc; apply peq_app; [|apply peq_refl];
+         apply peq_by_norm; simpl; rewrite ?app_nil_r; reflexivity).
+  apply peq_refl.
+Qed.
+
+Lemma journal_colour o m : o_colour o = true -> m_kind m = KJournal ->
+  nl_split [] (m_data m) = flat_lines m -> peq (print_journalentry o m) (decorate o m).
+Proof.
+  intros Hc Hk Hwf. unfold print_journalentry, decorate, decorate_colour, has_prefix, prefix. rewrite Hc, Hk.
+  destruct (o_file o), (o_date o); simpl orb; cbv iota;
+    try (unfold print_journalentry_prepend_color; rewrite Hwf; apply peq_app; [|apply peq_refl];
+         apply peq_loop_at; intros a x; rewrite !app_assoc; apply peq_app; [|apply peq_refl];
+         apply peq_by_norm; simpl; rewrite ?app_nil_r; reflexivity).
+  apply peq_refl.
+Qed.
+
+(* ---------------------------------------------------------------- C13 variants_agree *)
+Theorem variants_agree_peq o m : wf_full m -> f11_class o m = false -> peq (print_msg o m) (decorate o m).
+Proof.
+  intros [Hwf Hsys] Hf. unfold print_msg. unfold wf_msg in Hwf.
+  destruct (m_kind m) eqn:Hk; destruct (o_colour o) eqn:Hc.
+  - apply sys_colour; assumption.
+  - apply sys_plain; assumption.
+  - apply fixed_colour; assumption.
+  - apply fixed_plain; assumption.
+  - apply evtx_colour; assumption.
+  - apply evtx_plain; assumption.
+  - apply journal_colour; assumption.
+  - apply journal_plain; assumption.
+Qed.
+
+(* the refutation for the excluded dispatch: date field before file field *)
+Definition f11_o : popts :=
+  {| o_colour := false; o_file := true; o_date := true; o_ff := [102;58]%N; o_fmt := [37;89;58]%N; o_off := 0%Z |}.
+Definition f11_m : msg :=
+  {| m_kind := KFixed; m_t := 0%Z; m_lines := [[[120;10]%N]]; m_beg := 0; m_end := 0 |}.
+
+Lemma f11_refuted :
+  wf_full f11_m /\ f11_class f11_o f11_m = true /\
+  sem_out (print_msg f11_o f11_m) None <> sem_out (decorate f11_o f11_m) None /\
+  payload (sem_out (print_msg f11_o f11_m) None) = [49;57;55;48;58;102;58;120;10]%N /\
+  payload (sem_out (decorate f11_o f11_m) None) = [102;58;49;57;55;48;58;120;10]%N.
+Proof.
+  split; [|split; [|split; [|split]]].
+  - split; [exists [[120;10]%N]; reflexivity | exact I].
+  - reflexivity.
+  - vm_compute. discriminate.
+  - vm_compute. reflexivity.
+  - vm_compute. reflexivity.
+Qed.
